@@ -176,9 +176,42 @@ def _enumerated():
                 }
 
 
+def _delta_enumeration(length, fill=False):
+    """every sequence of `length` timestamp deltas over a 7-letter alphabet around the bucket width, three
+    start offsets, every append composition: a small but complete sub-domain of the collapse walk"""
+    import itertools
+
+    tf = 300
+    alphabet = (0, 1, tf // 2, tf, tf + 1, 2 * tf, 3 * tf - 1)
+
+    def gen():
+        for start in (0, 1, tf - 1):
+            for deltas in itertools.product(alphabet, repeat=length):
+                ts = [gs.BASE_DAY + start]
+                for d in deltas:
+                    ts.append(ts[-1] + d)
+                rows = [[t, 10 + i, 12 + i, 8 + i, 11 + i, i + 1] for i, t in enumerate(ts)]
+                n = len(rows)
+                for mask in range(2 ** (n - 1)):
+                    chunks, run = [], 1
+                    for bit in range(n - 1):
+                        if mask >> bit & 1:
+                            chunks.append(run)
+                            run = 1
+                        else:
+                            run += 1
+                    chunks.append(run)
+                    yield {"tf": "T5", "stream": rows, "preload": 0, "chunks": chunks, "extra": mask % 2, "mode": "manager", **({"fill": True} if fill else {})}
+
+    return gen
+
+
 def shards(tier):
     n = 1500 if tier == "quick" else 40000
     out = [Shard(f"gen-{i}", lambda: cases(), n, subject="collapse") for i in range(12)]
     out += [Shard(f"gen-long-{i}", lambda: cases(max_n=120), n // 4, subject="collapse", cost=2) for i in range(3)]
     out.append(Shard("enum-compositions", cases=_enumerated, subject="collapse", exhaustive=True))
+    out.append(Shard("enum-deltas-3", cases=_delta_enumeration(3), subject="collapse", exhaustive=True, cost=2))
+    if tier == "thorough":
+        out.append(Shard("enum-deltas-4", cases=_delta_enumeration(4), subject="collapse", exhaustive=True, cost=20))
     return out
